@@ -192,7 +192,7 @@ def run(ctx, rep):
         seeks = [(i, t) for i, t in db.calls() if (t["f"].get("path") or "") == "std::io::Seek::seek"]
         writes = [(bi, s) for bi, bl in enumerate(db.blocks) for s in bl["s"] if s["d"]["p"] and place_fields(s["d"])[-1:] == ["current_sample"]]
         rets = [(bi, s) for bi, s in agg_sites(db, "std::result::Result", "Ok") if s["d"]["l"] == 0]
-        rep.check("C06.state", "every reposition has its own current_sample update", len(seeks) == len(writes) and len(seeks) >= 3, loc_of(db), "%d seeks, %d updates" % (len(seeks), len(writes)),
+        rep.check("C06.state", "every reposition has its own current_sample update", len(seeks) == len(writes) and len(seeks) >= 2, loc_of(db), "%d seeks, %d updates" % (len(seeks), len(writes)),
                   "%d repositionings of the underlying reader but %d updates of current_sample: the decoder's sample counter goes stale on some path" % (len(seeks), len(writes)))
         for si, st in seeks:
             mine = [(bi, s) for bi, s in writes if db.dominates(si, bi) and not any(db.dominates(si, sj) and db.dominates(sj, bi) and sj != si for sj, _ in seeks)]
